@@ -167,3 +167,7 @@ for k, (t, ref) in TECH.items():
                                   'a universally quantified property over unbounded inputs cannot be settled by a finite run, so exploration is the honest level')
         PROPS[k]['level_note'] = ('trusts: the harness oracles and reference functions (written from YAML 1.2.2 / the property text, not from the code under test), rustc/cargo, '
                                   'and that /repo builds with feature verif-hooks; covers only the executions this run produced; known findings in /verif/known_findings.json are reported as KNOWN-FINDING')
+
+# supplementary Miri pass (thorough tier): scale of the quick workload that is run under the interpreter
+for k, sc in {'C01': 0.002, 'C10': 0.002, 'C18': 0.01, 'C19': 0.003, 'C20': 0.004}.items():
+    PROPS[k]['miri_scale'] = sc
